@@ -24,6 +24,7 @@ cCalE == <<RI(2)>>
 cNoiseE == <<RI(1), RI(3)>>
 cShapesBig == {[nS |-> 3, nC |-> b, nK |-> c, sens |-> s] : b \in 1..2, c \in 0..1, s \in {<<3>>, <<2, 2>>, <<3, 2>>}}
 cSyms == SymPool
+cSymsCluster == ClusterPool
 cActsEval == {"ModelEval", "JacEval", "SensEval"}
 cSensors == SensorPool
 cReadings == ReadingPool
